@@ -121,6 +121,19 @@ EmitT == (EmitCases /\ path' # path) => PrintT(<<"REPLAY", ToJson([limit |-> lim
 NextGuard == GuardActs /\ EmitT
 NextStop == (StopActs \/ \E c \in Conns : Open(c) \/ Finish(c, "reset") \/ Finish(c, "clientClose")) /\ EmitT
 
+(* graceful stop terminates (C10: "never hangs"): under weak fairness of the server's own steps - handlers finish, the writer  *)
+(* writes, every part notices the stop signal - a stop is always followed by `stopped` resolving.  The peer owes nothing:    *)
+(* it may never send, never close.                                                                                       *)
+FairStop == /\ Init /\ [][NextStop]_vars
+            /\ \A q \in Calls : WF_vars(HandlerStarts(q)) /\ WF_vars(HandlerFinishes(q)) /\ WF_vars(Enqueue(q)) /\ WF_vars(WriterSends(q))
+            /\ \A c \in Conns : WF_vars(ConnNoticesStop(c)) /\ WF_vars(ConnDone(c))
+            /\ WF_vars(AcceptStops) /\ WF_vars(AcceptDone) /\ WF_vars(StoppedResolves)
+Live_StopCompletes == stop ~> stoppedResolved
+(* vacuity guard: without fairness for the connection tasks the property must FAIL (a connection task that never ends) *)
+UnfairStop == /\ Init /\ [][NextStop]_vars
+              /\ \A q \in Calls : WF_vars(HandlerStarts(q)) /\ WF_vars(HandlerFinishes(q)) /\ WF_vars(Enqueue(q)) /\ WF_vars(WriterSends(q))
+              /\ WF_vars(AcceptStops) /\ WF_vars(AcceptDone) /\ WF_vars(StoppedResolves)
+
 --------------------------------------------------------------------------------
 (* C11 *)
 Inv_Bound == Cardinality(InService) <= limit
